@@ -441,3 +441,42 @@ Proof. destruct i as [A m]. unfold inclass_C07. simpl. rewrite !andb_true_iff. i
   subst ops. split.
   - intros He. apply detects_catalogue; auto.
   - apply nothing_else_catalogue; auto. Qed.
+
+(* ================================================================ several changes at once *)
+Lemma unchanged_refl A r : ~ changed A A r.
+Proof. destruct r; simpl; try tauto; intros H; apply H; reflexivity. Qed.
+Lemma unchanged_trans A B C r : ~ changed A B r -> ~ changed B C r -> ~ changed A C r.
+Proof. destruct r; simpl; try tauto.
+  - intros H1 H2 H3. apply H1. intro E. apply H2. intro E2. apply H3. congruence.
+  - intros H1 H2 H3. apply H1. intro E. apply H2. intro E2. apply H3. congruence.
+  - intros H1 H2 H3. apply H1. intro E. apply H2. intro E2. apply H3. congruence. Qed.
+Lemma objref_eqb_refl r : objref_eqb r r = true.
+Proof. destruct r; simpl; rewrite ?N.eqb_refl; auto. Qed.
+Lemma mem_ref_In r l : In r l -> mem_ref r l = true.
+Proof. intros H. apply existsb_exists. exists r. split; auto. apply objref_eqb_refl. Qed.
+Lemma In_mem_ref r l : mem_ref r l = true -> In r l.
+Proof. intros H. apply existsb_exists in H. destruct H as [x [Hx E]]. apply objref_eqb_eq in E. congruence. Qed.
+
+Lemma unchanged_stages ms : forall A r, stages_applicable (stages ms A) = true -> mem_ref r (touched (stages ms A)) = false ->
+  ~ changed A (apply_muts ms A) r.
+Proof. induction ms as [|m ms IH]; intros A r Ha Hm; simpl.
+  - apply unchanged_refl.
+  - simpl in Ha. apply andb_true_iff in Ha. destruct Ha as [Ha Hr].
+    unfold touched in Hm. simpl in Hm. unfold mem_ref in Hm. rewrite existsb_app in Hm. apply orb_false_iff in Hm. destruct Hm as [Hm1 Hm2].
+    apply (unchanged_trans A (apply_mut m A)).
+    + intros Hc. apply changed_touches in Hc; auto. apply mem_ref_In in Hc. unfold mem_ref in Hc. congruence.
+    + apply IH; auto. Qed.
+
+Theorem nothing_else_seq g A ms o : nd_schema A -> nd_schema (apply_muts ms A) -> dok_schema (apply_muts ms A) -> named_schema (apply_muts ms A) ->
+  stages_applicable (stages ms A) = true -> In o (diff g (reflect_sqlite A) (apply_muts ms A)) -> In (op_target o) (touched (stages ms A)).
+Proof. intros HA HB HBd HBu Ha Ho. destruct (mem_ref (op_target o) (touched (stages ms A))) eqn:E.
+  - apply In_mem_ref; auto.
+  - exfalso. apply (unchanged_stages ms A (op_target o) Ha E). eapply diff_local; eauto. Qed.
+
+Theorem check_C07s_sound i out : check_C07s i out = true -> C07s_holds i out.
+Proof. unfold check_C07s, C07s_holds. rewrite andb_true_iff, forallb_forall. intros [H1 H2]. split.
+  - apply (list_eqb_sound cfg_eqb cfg_eqb_eq); auto.
+  - intros g ops Hin. specialize (H2 _ Hin). simpl in H2. apply andb_true_iff in H2. destruct H2 as [Hd Hn].
+    rewrite forallb_forall in Hd, Hn. split.
+    + intros x Hx He. specialize (Hd _ Hx). rewrite He in Hd. simpl in Hd. apply detectsb_sound; auto.
+    + intros o Ho. apply In_mem_ref. apply Hn; auto. Qed.
